@@ -168,6 +168,7 @@ func runC06(c *Ctx) {
 	// (3) symmetry, (4) decode targets
 	symmetryRule(c, "save-load-symmetry")
 	freshDecodeRule(c, "fresh-decode-target")
+	loadReplacesRule(c, "load-replaces")
 
 	// (5) queue snapshot / restore
 	queueSnapshotRule(c, "queue-snapshot")
@@ -801,4 +802,112 @@ func constTimeExpr(e ast.Expr, info *types.Info) bool {
 		}
 	}
 	return true
+}
+
+// loadReplacesRule: a LoadCheckpoint that fills a container reached from its
+// receiver element by element (map update, indexed store, append) must first
+// replace that container with a fresh one (or have refused a non-empty one) on
+// every path: the rebuilt simulation's setup may already have populated it, and
+// entries absent from the checkpoint must not survive the load.
+func loadReplacesRule(c *Ctx, rule string) {
+	p := c.P
+	n := 0
+	for _, fn := range p.SrcFuncs(func(pp string) bool { return !clientPkg(pp) }) {
+		if fn.Name() != "LoadCheckpoint" || fn.Signature.Recv() == nil || len(fn.Blocks) == 0 || len(fn.Params) == 0 {
+			continue
+		}
+		recv := fn.Params[0]
+		n++
+		fromRecv := func(addr ssa.Value) (string, bool) {
+			// the container expression: a load of a field (path) of the receiver
+			for a, d := addr, 0; a != nil && d < 10; d++ {
+				switch y := a.(type) {
+				case *ssa.UnOp:
+					if fa, ok := y.X.(*ssa.FieldAddr); ok && memRoot(fa) == ssa.Value(recv) {
+						return VKey(fa), true
+					}
+					a = y.X
+				case *ssa.IndexAddr:
+					a = y.X
+				case *ssa.FieldAddr:
+					if memRoot(y) == ssa.Value(recv) {
+						return VKey(y), true
+					}
+					a = y.X
+				default:
+					a = nil
+				}
+			}
+			return "", false
+		}
+		fresh := func(v ssa.Value, key string) bool {
+			switch x := v.(type) {
+			case *ssa.MakeMap, *ssa.MakeSlice, *ssa.Alloc:
+				return true
+			case *ssa.Const:
+				return x.Value == nil
+			case *ssa.Call:
+				for y := range DataSlice(fn, x) {
+					if u, ok := y.(*ssa.UnOp); ok && VKey(u.X) == key {
+						return false
+					}
+				}
+				return true
+			}
+			return false
+		}
+		why := ""
+		for _, b := range fn.Blocks {
+			for _, in := range b.Instrs {
+				var key string
+				var ok bool
+				switch x := in.(type) {
+				case *ssa.MapUpdate:
+					key, ok = fromRecv(x.Map)
+				case *ssa.Store:
+					if ia, isIA := x.Addr.(*ssa.IndexAddr); isIA {
+						key, ok = fromRecv(ia.X)
+					} else if call, isCall := x.Val.(*ssa.Call); isCall {
+						if bi, isB := call.Call.Value.(*ssa.Builtin); isB && bi.Name() == "append" {
+							if k2, ok2 := fromRecv(x.Addr); ok2 && len(call.Call.Args) > 0 && loadOfKey(call.Call.Args[0], k2) {
+								key, ok = k2, true
+							}
+						}
+					}
+				}
+				if !ok {
+					continue
+				}
+				replaced := false
+				for _, bb := range fn.Blocks {
+					for _, in2 := range bb.Instrs {
+						st, isSt := in2.(*ssa.Store)
+						if !isSt || VKey(st.Addr) != key || !InstrDominates(in2, in) {
+							continue
+						}
+						if fresh(st.Val, key) {
+							replaced = true
+						}
+					}
+				}
+				// or: refused when non-empty
+				if !replaced {
+					for _, fact := range FactsAt(b) {
+						for y := range DataSlice(fn, fact.Cond) {
+							if u, isU := y.(*ssa.UnOp); isU && VKey(u.X) == key {
+								if bo, isBO := fact.Cond.(*ssa.BinOp); isBO && ((bo.Op == token.EQL && fact.Truth) || (bo.Op == token.NEQ && !fact.Truth)) && (constIs(bo.Y, "0") || constIs(bo.X, "0")) {
+									replaced = true
+								}
+							}
+						}
+					}
+				}
+				if !replaced {
+					why = "LoadCheckpoint fills " + shortKey(key) + " entry by entry (" + p.Rel(in.Pos()) + ") without first replacing it with a fresh container on every path: entries the rebuilt simulation's setup put there and that are absent from the checkpoint survive the load, so the resumed run differs from the uninterrupted one"
+				}
+			}
+		}
+		c.Check(why == "", rule, SSAFuncKey(fn), fn.Pos(), "containers filled by the load are replaced first", why)
+	}
+	c.Floor(rule, 7)
 }
